@@ -39,6 +39,24 @@
 (*   StaleMemo         the result of the mapping function is remembered per  *)
 (*                     source 'db.collection' and an update only forgets the *)
 (*                     keys it names                                         *)
+(*   EventMutated      an api-event handler writes the MAPPED database and   *)
+(*                     collection name into the SOURCE OBJECT of the         *)
+(*                     collection (WriterMap_HMutated*.cfg must violate)     *)
+(*                                                                           *)
+(* (3) The source object of a collection (sobj).  core/reader keeps ONE      *)
+(* *pb.CollectionInfo per collection and puts the same pointer into the      *)
+(* create-collection event, the later create/drop-partition events and the   *)
+(* drop-collection event (replicate_channel_manager.go sendCreateCollection- *)
+(* Event / AddPartition / the barrier closure of StartReadCollection); only  *)
+(* the event struct and its ReplicateParam{Database} are fresh.  An event     *)
+(* handler READS the collection name from that object, so the object is part *)
+(* of the state of a history: sobj[<<source database, collection>>] = the    *)
+(* name fields the object carries now.  As built no handler writes them      *)
+(* (the mapped names go onto the handler's own request), so an event is      *)
+(* always mapped from the source names.  Contract (SrcIntact): the object    *)
+(* carries the source names after every step = "bookkeeping keyed by source  *)
+(* names is unaffected by the mapping"; HContract judges every later call of *)
+(* the collection against the SOURCE names of the plan.                      *)
 (* Contract: CallOK for every call, no bookkeeping under foreign names.      *)
 EXTENDS NameMap
 
@@ -48,6 +66,7 @@ CONSTANTS RelPartRouted, AlterIdxRouted, RecheckBySource, DbProbeWithColl, PrivM
           KindsUsed, \* kinds enumerated
           \* histories
           StaleMemo,
+          EventMutated,
           HKinds,    \* kinds used in histories
           HSDBs,     \* source database spellings used in histories
           HColls,    \* collections operated on in histories
@@ -202,15 +221,20 @@ BadCalls(calls, kind, n, tab) == BadCallsC(calls, kind, n, C1, tab)
 VARIABLES hist, obs,
           tab,    \* histories: the mapping table in force
           ready,  \* histories: readiness bookkeeping (source-name keys known as created)
-          memo    \* StaleMemo only: remembered results of the mapping function
-vars == <<hist, obs, tab, ready, memo>>
+          memo,   \* StaleMemo only: remembered results of the mapping function
+          sobj    \* histories: the name fields of the shared source object of every collection (reader's CollectionInfo)
+vars == <<hist, obs, tab, ready, memo, sobj>>
 
-Init == hist = <<>> /\ obs = [calls |-> <<>>, polluted |-> FALSE] /\ tab = {} /\ ready = {} /\ memo = {}
+\* one source object per collection of the histories, keyed by the source names it is created with
+SKeys == {<<Norm(d), c>> : d \in HSDBs, c \in HColls}
+
+Init == /\ hist = <<>> /\ obs = [calls |-> <<>>, polluted |-> FALSE] /\ tab = {} /\ ready = {} /\ memo = {}
+        /\ sobj = [k \in SKeys |-> Nm(k[1], k[2])]
 
 (* ---------------- (1) one operation on a fresh writer ---------------------- *)
 Next ==
     /\ hist = <<>>
-    /\ UNCHANGED <<tab, ready, memo>>
+    /\ UNCHANGED <<tab, ready, memo, sobj>>
     /\ \E kind \in KindsUsed, sdb \in SDBs, shape \in Shapes, fail \in BOOLEAN :
          /\ (fail => kind \in FailKinds)
          /\ LET n == Norm(sdb)
@@ -249,7 +273,8 @@ UpdEntries(u, n) ==
       [] u = "swap"      -> <<Entry(n, "c1", n, "c2"), Entry(n, "c2", n, "c1")>>
 SeqSet(s) == {s[i] : i \in 1..Len(s)}
 
-PatternOf(w) == CASE w = "OUO" -> <<"O", "U", "O">> [] w = "UOUO" -> <<"U", "O", "U", "O">> [] w = "UO" -> <<"U", "O">> [] OTHER -> <<>>
+PatternOf(w) == CASE w = "OUO" -> <<"O", "U", "O">> [] w = "UOUO" -> <<"U", "O", "U", "O">> [] w = "UO" -> <<"U", "O">>
+                   [] w = "UOOO" -> <<"U", "O", "O", "O">> [] OTHER -> <<>>
 StepKind(i) == IF Pattern = "any" THEN "any" ELSE PatternOf(Pattern)[i]
 HDone == Len(hist) >= (IF Pattern = "any" THEN MaxSteps ELSE Len(PatternOf(Pattern)))
 
@@ -265,7 +290,10 @@ HOp ==
     /\ \E kind \in HKinds, sdb \in HSDBs, coll \in HColls :
          /\ (kind \in DbKinds \cup NoNameKinds => coll = C1)       \* the collection is not used: one representative
          /\ LET n == Norm(sdb)
-                S1 == MapEval(n, coll)
+                \* an api event carries the collection's shared source object: the handler reads the collection name from it
+                \* (the database comes with the event's own, fresh ReplicateParam); messages carry their own names
+                rc == IF kind \in EventKinds THEN sobj[<<n, coll>>].coll ELSE coll
+                S1 == MapEval(n, rc)
                 S0 == MapEval(n, "")
                 dbUse == kind \in DbKinds \/ (kind \in {"createCollection", "dropCollection"} /\ ~DbProbeWithColl)
             IN \E pd \in (IF kind = "alterDatabase" \/ (kind \in {"createCollection", "dropCollection"} /\ ~DbProbeWithColl) THEN S0 ELSE S1),
@@ -274,11 +302,14 @@ HOp ==
                    LET pk == [pd |-> pd, pc |-> pc, p1 |-> p1, p2 |-> p2, po |-> po, rd |-> po, rc |-> po, rp |-> po] IN
                    \* a remembered result is the same for every evaluation of one operation
                    /\ (StaleMemo => pc = p1 /\ p1 = p2 /\ (kind \notin DbKinds => po = pc) /\ (~dbUse => pd = pc))
-                   /\ obs' = [calls |-> CallsR(kind, sdb, coll, FALSE, pk, ready), polluted |-> FALSE]
-                   /\ ready' = ReadyAfter(kind, sdb, coll, ready)
+                   /\ obs' = [calls |-> CallsR(kind, sdb, rc, FALSE, pk, ready), polluted |-> FALSE]
+                   /\ ready' = ReadyAfter(kind, sdb, rc, ready)
                    /\ memo' = IF ~StaleMemo THEN memo
-                              ELSE memo \cup (IF kind \in DbKinds \cup NoNameKinds THEN {} ELSE {[n |-> n, coll |-> coll, res |-> pc]})
+                              ELSE memo \cup (IF kind \in DbKinds \cup NoNameKinds THEN {} ELSE {[n |-> n, coll |-> rc, res |-> pc]})
                                         \cup (IF kind \in DbKinds THEN {[n |-> n, coll |-> "", res |-> po]} ELSE {})
+                   \* EventMutated: the handler writes the names it sends onto the event's collection object - which is the
+                   \* reader's object, seen by every later event of the collection
+                   /\ sobj' = IF EventMutated /\ kind \in EventKinds THEN [sobj EXCEPT ![<<n, coll>>] = po] ELSE sobj
                    /\ hist' = Append(hist, HStepRec("hmap", kind, sdb, coll, <<>>))
     /\ UNCHANGED tab
 
@@ -291,7 +322,7 @@ HUpd ==
          /\ memo' = {x \in memo : ~\E i \in 1..Len(es) : es[i].sdb = x.n /\ es[i].scoll = x.coll}
          /\ hist' = Append(hist, HStepRec("upd", "", "", "", es))
     /\ obs' = [calls |-> <<>>, polluted |-> FALSE]
-    /\ UNCHANGED ready
+    /\ UNCHANGED <<ready, sobj>>
 
 HNext == HOp \/ HUpd
 HSpec == Init /\ [][HNext]_vars
@@ -301,7 +332,10 @@ HContract ==
     (hist # <<>> /\ hist[Len(hist)].op = "hmap") =>
         LET st == hist[Len(hist)] IN BadCallsC(obs.calls, st.kind, Norm(st.sdb), st.coll, tab) = {}
 
+\* the source object of every collection carries the source names ("bookkeeping keyed by source names is unaffected by the mapping")
+SrcIntact == \A k \in SKeys : sobj[k] = Nm(k[1], k[2])
+
 HPlanOut == HDone => PrintT("PLAN " \o ToJson(hist))
 \* exhaustive design checks hide the history (bounded by the number of steps)
-HView == <<Len(hist), IF hist = <<>> THEN <<>> ELSE hist[Len(hist)], obs, tab, ready, memo>>
+HView == <<Len(hist), IF hist = <<>> THEN <<>> ELSE hist[Len(hist)], obs, tab, ready, memo, sobj>>
 =============================================================================
